@@ -40,7 +40,7 @@ FreshP == [ run |-> 0, blk |-> <<>>,      \* b -> [cap, fl, q, reg, free, occ, p
             sw |-> <<>>,                   \* thread -> [key, x] of its swap in progress
             enq |-> {},                    \* threads that have enqueued in their current wake
             lastpop |-> <<>>,              \* b -> slot popped and not yet cleared (-1: none)
-            pw |-> 0, inpoll |-> FALSE,
+            pw |-> 0, inpoll |-> FALSE, ext |-> FALSE,    \* ext: the environment is waking the task itself (a pending upstream)
             dev |-> {} ]
 D(s, c, e) == [s EXCEPT !.dev = @ \cup {<<c, e.e>>}]
 Ck(s, ok, c, e) == IF ok THEN s ELSE D(s, c, e)
@@ -93,6 +93,9 @@ StepP(s0, e) ==
     [] e.e = "poll"  -> [s EXCEPT !.pw = e.w, !.inpoll = TRUE]
     [] e.e \in {"ret", "vec", "err"} -> [s EXCEPT !.inpoll = FALSE]
     [] e.e = "rega"  -> [s EXCEPT !.blk[e.b].preg = s.blk[e.b].reg, !.blk[e.b].reg = s.pw, !.blk[e.b].pops = 0]
+    [] e.e = "wake_b" -> IF e.key = 0 THEN [s EXCEPT !.ext = TRUE] ELSE s
+    [] e.e = "wake_e" -> [s EXCEPT !.ext = FALSE]
+    [] e.e = "tw" /\ s.ext -> s
     [] e.e = "tw" ->
          \* inside a waker call: the notification of that block; otherwise the owner's own self-wake
          IF e.t \in DOMAIN s.sw
